@@ -48,11 +48,10 @@ func runC14(c *Ctx) {
 	L.Floor("row-index-safe", 5, "Entropy, CharStatsSite row reads; three by-index accessors used by CharStatsSeq")
 
 	// (c) alphabet ↔ wildcard
-	c.checkAlphabetConsts("alphabet-wildcard", map[string]bool{
-		"(*align).MaxCharStats": true, "(*align).InformativeSites": true, "(*align).NumMutationsUniquePerSequence": true,
-		"(*seq).NumMutationsComparedToReferenceSequence": true, "(*seq).listMutationsComparedToReferenceSequence": true,
-	})
-	L.Floor("alphabet-wildcard", 10, "2 constants in each of 5 functions")
+	c.checkAlphabetConsts("alphabet-wildcard", c.helperDeclsOf("align",
+		[2]string{"*align", "MaxCharStats"}, [2]string{"*align", "InformativeSites"}, [2]string{"*align", "NumMutationsUniquePerSequence"},
+		[2]string{"*seq", "NumMutationsComparedToReferenceSequence"}, [2]string{"*seq", "listMutationsComparedToReferenceSequence"}))
+	L.Floor("alphabet-wildcard", 2, "both wildcard constants are used by the statistics functions (or a helper they share)")
 
 	// (d) purity
 	var pure []purityTarget
